@@ -442,6 +442,58 @@ fn reader(c: &Arc<Ctx>, tag: &str, versions: &[u8]) {
     c.ob(format!("{tag}:v{}", av.unwrap_or(255)));
 }
 
+fn kc() -> Key {
+    let mut k = [0x11u8; 32];
+    k[31] = 3;
+    k
+}
+
+/// A reader whose session is built on an UNCOMMITTED overlay (which writes a third key): it reads
+/// the two committed keys — which the overlay does not cover — with scheduling points in between.
+/// If the committed state still was the overlay's base right after `begin_session`, the session is
+/// a reader like any other: both keys, read twice, must show that one version, and the committed
+/// root must not move until the session is dropped (a blocking writer waits for it).
+fn reader_on_overlay(c: &Arc<Ctx>, tag: &str, ov: &Overlay) {
+    let params = match SessionParams::default().overlay([ov]) {
+        Ok(p) => p,
+        Err(e) => {
+            c.err(format!("{tag}: SessionParams::overlay refused a one-overlay chain: {e:?}"));
+            return;
+        }
+    };
+    let s = c.n.begin_session(params);
+    c.session_alive.store(true, Ordering::SeqCst);
+    if c.n.root().into_inner() != root_of(0) {
+        // the writer won before the session began: a session on a stale chain, nothing specified
+        c.session_alive.store(false, Ordering::SeqCst);
+        drop(s);
+        c.ob(format!("{tag}:stale-chain"));
+        return;
+    }
+    if someone_mid_commit() {
+        c.err(format!("{tag}: begin_session (on an overlay) returned while another thread is in the middle of a commit"));
+    }
+    let a = s.read(ka()).unwrap().map(|v| v[0]);
+    sp("R.after-read-a");
+    let b = s.read(kb()).unwrap().map(|v| v[0]);
+    sp("R.after-read-b");
+    let a2 = s.read(ka()).unwrap().map(|v| v[0]);
+    let over = s.read(kc()).unwrap().map(|v| v[0]);
+    sp("R.before-drop");
+    if a != Some(0) || b != Some(0) || a2 != Some(0) {
+        c.err(format!("{tag}: a session on an overlay over v0 observed ka=v{a:?}, kb=v{b:?}, ka again=v{a2:?}"));
+    }
+    if over != Some(9) {
+        c.err(format!("{tag}: the overlay's own key reads v{over:?}, expected v9"));
+    }
+    if c.n.root().into_inner() != root_of(0) {
+        c.err(format!("{tag}: the committed root moved while a session (on an overlay) was alive"));
+    }
+    c.session_alive.store(false, Ordering::SeqCst);
+    drop(s);
+    c.ob(format!("{tag}:v0"));
+}
+
 fn final_check(c: Arc<Ctx>, dir: PathBuf, want: Option<u8>, allowed: &[u8]) -> Result<String, String> {
     let errs = c.errs.lock().unwrap().clone();
     if !errs.is_empty() {
@@ -588,6 +640,33 @@ impl SchedX {
                 Execution {
                     threads: vec![mk(c1, 1), mk(c2, 2), mk(c3, 3)],
                     finish: Box::new(move || final_check(c4, dir, Some(0), &[])),
+                }
+            }
+            // reader whose session sits on an uncommitted overlay ∥ blocking writer ∥ (H1ovr) rollback
+            "H1ov" | "H1ovr" => {
+                let (c, dir) = self.base_ctx(if name == "H1ov" { &[0] } else { &[1, 0] });
+                let ov = {
+                    let s = c.n.begin_session(SessionParams::default());
+                    s.finish(vec![(kc(), KeyReadWrite::Write(Some(val(9))))]).unwrap().into_overlay()
+                };
+                let (c1, c2, c3) = (c.clone(), c.clone(), c);
+                let rollback = name == "H1ovr";
+                Execution {
+                    threads: vec![
+                        Box::new(move || {
+                            reader_on_overlay(&c1, "R", &ov);
+                            drop(ov);
+                            drop(c1);
+                        }),
+                        Box::new(move || {
+                            let r = if rollback { c2.n.rollback(1) } else { commit_kv(&c2.n, &[(ka(), Some(val(1))), (kb(), Some(val(1)))]) };
+                            if let Err(e) = r {
+                                c2.err(format!("W: {} failed: {e:#}", if rollback { "rollback" } else { "commit" }));
+                            }
+                            drop(c2);
+                        }),
+                    ],
+                    finish: Box::new(move || final_check(c3, dir, Some(1), &[])),
                 }
             }
             // reader ∥ non-blocking writer with a prepared changeset
@@ -1984,8 +2063,8 @@ impl Engine for SchedX {
         let thorough = tier == "thorough";
         let (harnesses, rule): (Vec<&str>, &str) = match prop {
             "C15" => (
-                vec!["H1", "H2", "H3", "H3nb", "H3ov", "H4", "H5", "H6", "H6w", "H6r", "H7", "H8", "H8ov", "H8r", "H8rr", "H9", "H10", "H10w"],
-                "schedx: closed harnesses of 2–3 real threads on two colliding keys (same value leaf, same merkle page), values stamped with the writer's version, rollback enabled: H1 reader∥blocking writer; H2 reader∥non-blocking writer (prepared changeset, retried blocking when handed back); H3/H3nb/H3ov two writers with changesets on one base (blocking / non-blocking / overlay) followed by reopen and rollback(1); H4 reader∥rollback; H5 reader∥writer∥writer; H6 one thread with two overlapping sessions∥writer; H6w one thread, warm-up on and one commit worker, two overlapping sessions, the second one finished while the first is alive; H6r one thread, rollback enabled, three overlapping sessions, the third one finished while the first two are alive; H10/H10w three threads, each begins a session, reads and finishes it into a changeset that is dropped — three coexisting sessions in every order of begins and finishes, with rollback on (H10: a reverse-delta worker per session) and with warm-up on as well (H10w: a warm-up worker per session): no session waits for another one to end; H8/H8ov/H8r a changeset or overlay prepared on the current state ∥ rollback(1) [∥ a reader]: the writers serialise — commit then rollback (final = the state before the commit, one further rollback possible) or rollback then commit (the changeset is refused, final = the rolled-back state); H8rr two rollback(1) racing after three commits (both served, then a third one empties the store); H9 a prepared changeset in a blocking commit ∥ a witnessed session being finished (point before the merkle join): the committed root may not change between begin_session and the return of finish(), every witnessed path verifies against the session's previous root, exactly one of the two wins; H7 two threads proving different keys (present and absent) through ONE shared session on a cold store, with scheduling points at every I/O submission and every wait for a completion of the calling threads (the scheduler lets outstanding reads complete before it decides, so the enabled set does not depend on I/O speed). EVERY schedule of the visible points (API lock acquisitions with parking_lot's writer-preferring FIFO fairness modelled in the scheduler, the read-transaction wait, harness points between session operations) with ≤c preemptions is executed on a fresh store, c = 0,1,2 (thorough 3). Oracle per schedule: terminates (no enabled thread = deadlock); all reads and the proof of one session agree with one committed version and with session.prev_root(); exactly one of two competing changesets wins; final state, root and state after reopen are the winner's; rollback(1) restores the base. One case = one harness × one bound; evaluations = cases, transitions = scheduler steps, states = distinct schedules (trace digests).",
+                vec!["H1", "H2", "H3", "H3nb", "H3ov", "H4", "H5", "H6", "H6w", "H6r", "H7", "H8", "H8ov", "H8r", "H8rr", "H9", "H10", "H10w", "H1ov", "H1ovr"],
+                "schedx: closed harnesses of 2–3 real threads on two colliding keys (same value leaf, same merkle page), values stamped with the writer's version, rollback enabled: H1 reader∥blocking writer; H2 reader∥non-blocking writer (prepared changeset, retried blocking when handed back); H3/H3nb/H3ov two writers with changesets on one base (blocking / non-blocking / overlay) followed by reopen and rollback(1); H4 reader∥rollback; H5 reader∥writer∥writer; H6 one thread with two overlapping sessions∥writer; H6w one thread, warm-up on and one commit worker, two overlapping sessions, the second one finished while the first is alive; H6r one thread, rollback enabled, three overlapping sessions, the third one finished while the first two are alive; H1ov/H1ovr a reader whose session is built on an UNCOMMITTED overlay (it reads the two committed keys, which the overlay does not cover, twice, and the overlay's own key) ∥ a blocking commit / a rollback(1): such a session is a reader like any other — one version, and the committed root does not move until it is dropped; H10/H10w three threads, each begins a session, reads and finishes it into a changeset that is dropped — three coexisting sessions in every order of begins and finishes, with rollback on (H10: a reverse-delta worker per session) and with warm-up on as well (H10w: a warm-up worker per session): no session waits for another one to end; H8/H8ov/H8r a changeset or overlay prepared on the current state ∥ rollback(1) [∥ a reader]: the writers serialise — commit then rollback (final = the state before the commit, one further rollback possible) or rollback then commit (the changeset is refused, final = the rolled-back state); H8rr two rollback(1) racing after three commits (both served, then a third one empties the store); H9 a prepared changeset in a blocking commit ∥ a witnessed session being finished (point before the merkle join): the committed root may not change between begin_session and the return of finish(), every witnessed path verifies against the session's previous root, exactly one of the two wins; H7 two threads proving different keys (present and absent) through ONE shared session on a cold store, with scheduling points at every I/O submission and every wait for a completion of the calling threads (the scheduler lets outstanding reads complete before it decides, so the enabled set does not depend on I/O speed). EVERY schedule of the visible points (API lock acquisitions with parking_lot's writer-preferring FIFO fairness modelled in the scheduler, the read-transaction wait, harness points between session operations) with ≤c preemptions is executed on a fresh store, c = 0,1,2 (thorough 3). Oracle per schedule: terminates (no enabled thread = deadlock); all reads and the proof of one session agree with one committed version and with session.prev_root(); exactly one of two competing changesets wins; final state, root and state after reopen are the winner's; rollback(1) restores the base. One case = one harness × one bound; evaluations = cases, transitions = scheduler steps, states = distinct schedules (trace digests).",
             ),
             "C20" => (
                 vec!["O1", "O2", "O2x3", "O3", "O4", "L1", "L2", "L3", "L4", "L5", "P1", "P1k"],
